@@ -15,7 +15,7 @@ func init() {
 	explain("C01", "Static necessary conditions of commit-frontier safety, each decided exhaustively over /repo's type-checked source and go/ssa form: "+
 		"who may notify the input and with which flag (all call sites), send-before-commit on every CFG path of the batch worker, commit only inside the lock-held sequenced region "+
 		"(wait loop on commitSeq == batch.seq, +1 under the lock, broadcast before release), retry loop exits only on success or exhaustion, stream detach only when away == committed, "+
-		"single commit sequencer per Router. NOT decided: that a concrete schedule respects the frontier (the behaviour itself).",
+		"single commit sequencer per Router; the compare-and-advance of a stream's committed sequence is one critical section; an accepted event cannot vanish from its stream queue (FIFO link shape); the flag that lets a batch bypass the send accumulates over the whole batch; batches are filled in arrival order and committed front to back; an exhausted batch reaches the commit only through the error callback / dead-queue hand-over. NOT decided: that a concrete schedule respects the frontier (the behaviour itself).",
 		"go/types, go/ssa and x/tools call resolution are correct", "lock identity is by access path (obj.mu style)", "sync.Once.Do and Batch.ForEach call their argument synchronously")
 	reg("C01", "C01.R1", "E1+E2", "exactly one input-notification site, control-dependent on a bool parameter", 1, ruleNotifySite)
 	reg("C01", "C01.R2", "E1", "every caller of the finalizer passes constant false for notifyInput, except the output acknowledgement", 4, ruleNotifyCallers)
@@ -26,6 +26,10 @@ func init() {
 	reg("C01", "C01.R7", "E2+E3", "stream detach only when awaySeq == commitSeq, under the stream lock", 1, ruleDetachGuard)
 	reg("C01", "C01.R8", "E1", "single commit sequencer: OutputPlugin.Out is invoked on one Router field only", 1, ruleSingleSequencer)
 	reg("C01", "C01.R9", "E2", "stream.commit ignores only older sequence ids and detaches only while detaching", 1, ruleStreamCommit)
+	reg("C01", "C01.R10", "E2+E3", "an accepted event cannot vanish from its stream queue: FIFO link shape, no overwrite of a non-empty queue (same rule as C02.R7)", 1, ruleStreamPutFIFO)
+	reg("C01", "C01.R11", "E2", "the flag that lets a batch bypass the send accumulates over the whole batch; ForEach visits every deliverable event (same rule as C19.R5)", 1, ruleForEachShape)
+	reg("C01", "C01.R12", "E1+E2", "batches are filled in arrival order and committed front to back (same rule as C02.R3)", 1, ruleFIFOBatchFill)
+	reg("C01", "C01.R13", "E2", "an exhausted batch reaches the commit only through the error callback / dead-queue hand-over (same rule as C09.R2)", 1, ruleExhaustionPath)
 }
 
 // notifyFn returns the function containing the single input-notification site and the
